@@ -92,6 +92,38 @@ def install_value_model(E, ctx):
         return None
     B_['__isinstance__'] = _isinstance
 
+    # type(x) is str / type(x) == str: true of exact strings only; a str SUBCLASS (an enum member with a str mixin,
+    # a markup-safe string, a path-like str) is a string all the same and the property speaks of strings
+    exact_str = z3.Function('type_is_exactly_str', ValS, B)
+
+    def _type(E_, a, k):
+        if len(a) == 1 and isinstance(a[0], VVal) and a[0].t.sort() == ValS:
+            return Obj('type_of', dict(val=a[0].t))
+        if len(a) == 1 and isinstance(a[0], VStr):
+            return Obj('type_of', dict(val=None))
+        raise Unsupported('type(%r)' % (a,))
+    B_['type'] = VStub('type', _type)
+
+    def _type_cmp(E_, a, b):
+        for x, y in ((a, b), (b, a)):
+            if isinstance(x, Obj) and x.cls == 'type_of':
+                if not isinstance(y, (VClass, VStub)):
+                    raise Unsupported('type(x) compared with %r' % (y,))
+                v = x.fields['val']
+                if v is None:
+                    return getattr(y, 'name', None) == 'str'
+                if getattr(y, 'name', None) == 'str':
+                    E.assume(z3.Implies(exact_str(v), is_str(v)))
+                    return exact_str(v)
+                if getattr(y, 'name', None) in ('tuple', 'list'):
+                    t = z3.Function('type_is_exactly_' + y.name, ValS, B)(v)
+                    E.assume(z3.Implies(t, z3.And(z3.Not(is_str(v)), z3.Not(exact_str(v)))))
+                    return t
+                raise Unsupported('type(x) compared with %r' % (y,))
+        return None
+    B_['__identical__'] = _type_cmp
+    B_['__eq__'] = _type_cmp
+
     def _call(E, f, args, kwargs, node):
         if f is ctx.get('parse'):
             # the user's parser: pure function of its text, may raise ANYTHING
@@ -508,6 +540,20 @@ def t_split(E):
         E.builtins[('import', 'itertools:compress')] = VStub('itertools.compress', _compress)
         E.builtins[('import', 'collections:deque')] = _eager('deque')
         E.builtins['map'] = VStub('map', _map)
+
+        def _iter(E_, a, k):
+            """iter(x): x itself when x is an iterator; a NEW iterator over the same elements when x is a container
+            (which can then be iterated again and again)"""
+            o = a[0]
+            if len(a) == 1 and isinstance(o, Obj) and o.cls == 'Iter' and not (o is src or o is cond):
+                return o    # what tee/map/compress return are iterators
+            if len(a) == 1 and isinstance(o, Obj) and o.cls == 'Iter':
+                if E.choose([('iterator', None), ('container', None)], 'iter(argument)') == 'iterator':
+                    return o
+                o.fields['reiterable'] = True
+                return mk_iter(o.fields['den'])
+            raise Unsupported('iter(%r)' % (a,))
+        E.builtins['iter'] = VStub('iter', _iter)
         E.builtins['__comprehension__'] = _genexp
         E.builtins['__identical__'] = _identical
         # the singletons among the opaque values: True is truthy, False and None are falsy
@@ -642,9 +688,19 @@ def t_exhaust(E):
             raise Unsupported('%s(%r)' % (name, it_))
         return VStub(name, fn_)
 
+    def _hasattr(E_, a, k):
+        o, n = a[0], a[1].concrete() if isinstance(a[1], VStr) else None
+        if isinstance(o, Obj) and o.cls == 'Iter' and n in ('__len__', '__getitem__', '__contains__', '__reversed__'):
+            # a lazy iterable, even a one-shot iterator, may well be sized (a progress wrapper around map(), a view)
+            return VBool(E.fresh('argument_has' + n, B))
+        if isinstance(o, Obj) and o.cls == 'Iter' and n in ('__iter__', '__next__'):
+            return VBool(True) if n == '__iter__' else VBool(E.fresh('argument_is_an_iterator', B))
+        raise Unsupported('hasattr(%r, %r)' % (o, n))
+
     def body():
         st.clear()
         E.builtins[('import', 'collections:deque')] = VStub('collections.deque', _deque)
+        E.builtins['hasattr'] = VStub('hasattr', _hasattr)
         E.builtins['any'] = _short_circuit('any')
         E.builtins['all'] = _short_circuit('all')
         it = mk_iter(E.fresh('X', VS))
